@@ -174,6 +174,24 @@ def run_property(prop: str, tier: str = "quick", replay: Optional[str] = None, t
 
             all_obs.append(Obligation("%s/vacuity#entry-assumptions-satisfiable" % q.replace("pydsdl.", ""),
                                       res.entry_pc, z3.BoolVal(False), res.entry_axioms, q, [], kind="vacuity"))
+    # lemmas over contracts (no code executed): LEMMAS = {name: fn(ctx) -> {label: goal}}
+    for lname, lfn in sorted((getattr(mod, "LEMMAS", {}) or {}).items()):
+        try:
+            res = eng.verify_lemma(lname, lfn)
+        except Exception as e:
+            limits.append("lemma %s: generator crash %s: %s" % (lname, type(e).__name__, e))
+            traceback.print_exc()
+            continue
+        functions.append({"function": "lemma:" + lname, "paths": 1, "obligations": len(res.obligations), "instances": 1,
+                          "source_hash": None, "normal_return_paths": res.normal_paths, "raising_paths": 0})
+        all_obs.extend(res.obligations)
+        limits.extend("lemma %s: %s" % (lname, l) for l in res.limits)
+        if res.entry_pc is not None:
+            from .symexec import Obligation
+            import z3
+
+            all_obs.append(Obligation("lemma.%s/vacuity#hypotheses-satisfiable" % lname, res.entry_pc, z3.BoolVal(False),
+                                      res.entry_axioms, "lemma:" + lname, [], kind="vacuity"))
     gen_time = time.time() - t_gen
 
     extra_results = []
